@@ -6,11 +6,13 @@ namespace MV.Facts
 variables of the packages this property's code lives in, the functions (other than `init`) that
 assign to them or call methods on them, and the fields of the property's struct types. The model is
 a pure function of the arguments and of these fields; a new variable, writer or field is state the
-model does not know of. The digest-valued entries cover, per package: every declared function and
-method with its receiver kind (`funcs:`), every function-reads-package-variable pair (`reads:`) and
-every write through a parameter or receiver, including in-place `sort.*`/`copy` (`pwrites:`); the
-lists behind the digests are in `funcs_expected.txt` and in comments of the generated file. -/
-def stateC19 : List (String × String) := [("globals:graph", ""), ("globals:graphalg", ""), ("globalwrites:graph", ""), ("globalwrites:graphalg", ""), ("fields:graphalg.DomTree", "idom:[]int children:[][]int"), ("funcs:graph", "n=13 fnv64a=6d127aa916cf372a"), ("reads:graph", "n=0 fnv64a=cbf29ce484222325"), ("pwrites:graph", "n=0 fnv64a=cbf29ce484222325"), ("funcs:graphalg", "n=27 fnv64a=7bc26b7e444e3bd8"), ("reads:graphalg", "n=0 fnv64a=cbf29ce484222325"), ("pwrites:graphalg", "n=4 fnv64a=63704012c05b15a7")]
+model does not know of. The digest-valued `shape:` entry covers everything the call graph
+(resolved by go/types) reaches from the functions declared in the property's anchor files: per
+function, method (with receiver kind), package variable and constant, its numeric literals, the
+package variables it reads and its writes through parameters or the receiver (including in-place
+`sort.*`/`copy`/`append`). The entries behind the digest are in `shape_expected.txt` and in a
+comment of the generated file. -/
+def stateC19 : List (String × String) := [("globals:graph", ""), ("globals:graphalg", ""), ("globalwrites:graph", ""), ("globalwrites:graphalg", ""), ("fields:graphalg.DomTree", "idom:[]int children:[][]int"), ("shape:C19", "n=25 fnv64a=735b5806cc77cae1")]
 
 /-- the source has exactly the package-level variables, writers and struct fields the model accounts for -/
 theorem state_C19 : holdsAll stateC19 = true := by decide +kernel
